@@ -44,6 +44,21 @@
 (*               the scan and the staged additions are exhausted.          *)
 (*               FALSE: it skips the removed element and continues.        *)
 (*                                                                         *)
+(* Mutation switches (FALSE = as the code is; TRUE = a plausible slip of    *)
+(* the read path, used to GENERATE behaviours that would expose it: the    *)
+(* counterexamples of the mutant model are replayed on the real code,      *)
+(* where they must pass):                                                  *)
+(*   LateSnapshot   get() takes the staging snapshot AFTER the store scan  *)
+(*               was opened on the TooLarge / streaming path (and re-takes *)
+(*               it after the fetch on the Spilled path): an operation     *)
+(*               committed and flushed from the log in between is visible  *)
+(*               in neither the scan nor the overlay.  The streaming read  *)
+(*               then is two steps (StreamScan, StreamDone) so that the    *)
+(*               commit and the flush can fall between them.               *)
+(*   LateSnapFetch  fetch_entry takes the staging snapshot after its store *)
+(*               scan (inside the single flight) instead of before the     *)
+(*               probe: same hole, but the wrong set is installed.         *)
+(*                                                                         *)
 (* Deliberate deviations: the deferred-message queue of ConcurrentLog      *)
 (* (try_write failure) is not modelled (messages are applied before the    *)
 (* next snapshot in any case); callers obey the epoch rule per element;    *)
@@ -53,6 +68,7 @@ EXTENDS Naturals, Integers, Sequences, FiniteSets, TLC, Json
 
 CONSTANTS Keys, Elems, Clients, MaxBatches, MaxOps, T,
           LostInsert, FlushMax, FoldCancel, SpillCut,
+          LateSnapshot, LateSnapFetch,   \* mutation switches (slips the code does NOT have)
           SplitAppend,   \* TRUE: pin and append of apply_op are separate steps
           Gen,
           PrintCex       \* TRUE: print the replayable history of every failing get
@@ -387,9 +403,13 @@ Install(c) ==
     /\ pc[c].st = "install"
     /\ LET k == pc[c].k
            big == Cardinality(pc[c].scan) > T
-           nset == IF big THEN {} ELSE (pc[c].scan \cup pc[c].sa) \ pc[c].sr
+           \* (mutant) the snapshot is taken now, after the scan
+           late == Snap(IF lpres[k] THEN log[k] ELSE <<>>)
+           usa == IF LateSnapFetch THEN late[1] ELSE pc[c].sa
+           usr == IF LateSnapFetch THEN late[2] ELSE pc[c].sr
+           nset == IF big THEN {} ELSE (pc[c].scan \cup usa) \ usr
            \* elements whose membership in the built set ignores a later write
-           lost == {<<e, "KF5">> : e \in pc[c].since}
+           lost == IF LateSnapFetch THEN {} ELSE {<<e, "KF5">> : e \in pc[c].since}
            ntag == IF big THEN {} ELSE pc[c].stag \cup lost
            retry == ~LostInsert /\ pc[c].since # {}
            vacant == entry[k].st = "absent" IN
@@ -405,6 +425,7 @@ Install(c) ==
                                             !.est = IF vacant THEN "" ELSE IF big THEN "large" ELSE "mem",
                                             !.eset = IF vacant THEN {} ELSE nset,
                                             !.etag = IF vacant THEN {} ELSE ntag,
+                                            !.sa = usa, !.sr = usr,
                                             !.scan = IF big THEN @ ELSE {}, !.since = {}]
                     ELSE IF pc[x].st = "wait" /\ pc[x].k = k THEN [pc[x] EXCEPT !.st = "snap"]
                     ELSE pc[x]]
@@ -450,8 +471,11 @@ ReadOutcomes(c) ==
         shared == pc[c].ent = 1
         kind == IF shared THEN entry[k].st ELSE pc[c].est IN
     IF pc[c].spilled
-    THEN {[res |-> r, tags |-> pc[c].stag \cup SpillTags(pc[c].scan, pc[c].sa, pc[c].sr), dbr |-> 0] :
-            r \in SpillResults(pc[c].scan, pc[c].sa, pc[c].sr)}
+    THEN LET late == Snap(IF lpres[k] THEN log[k] ELSE <<>>)   \* (mutant) snapshot re-taken after the fetch
+             usa == IF LateSnapshot THEN late[1] ELSE pc[c].sa
+             usr == IF LateSnapshot THEN late[2] ELSE pc[c].sr IN
+         {[res |-> r, tags |-> pc[c].stag \cup SpillTags(pc[c].scan, usa, usr), dbr |-> 0] :
+            r \in SpillResults(pc[c].scan, usa, usr)}
     ELSE IF kind = "mem"
     THEN {[res |-> IF shared THEN entry[k].set ELSE pc[c].eset,
            tags |-> IF shared THEN entry[k].taint ELSE pc[c].etag, dbr |-> 0]}
@@ -481,25 +505,46 @@ Done(c) ==
 (* model checking: iteration and return in one step; the verdict of the    *)
 (* get is kept in `viol` (0 ok, 1 wrong with a known-finding signature on  *)
 (* every wrong element, 2 wrong without)                                   *)
-ReadDone(c) ==
-    /\ pc[c].st = "read"
-    /\ \E o \in ReadOutcomes(c) :
-        LET w == WrongOf(c, o.res)
-            v == IF w = {} THEN 0 ELSE IF \A e \in w : \E t \in o.tags : t[1] = e THEN 1 ELSE 2 IN
-        /\ viol' = IF v > viol THEN v ELSE viol
-        /\ IF v > 0 /\ PrintCex
-           THEN PrintT(ToJson([map |-> "set", clients |-> Cardinality(Clients), cex |-> "ReadYourWrites",
-                    steps |-> Append(hist, [a |-> "res", c |-> c, k |-> pc[c].k, must |-> gmust[c],
-                                            may |-> gmay[c], asis |-> o.res,
-                                            tags |-> {t \in o.tags : t[1] \in w},
-                                            ndb |-> pc[c].ndb + o.dbr])]))
-           ELSE TRUE
-        /\ Log([a |-> "res", c |-> c, k |-> pc[c].k, must |-> gmust[c], may |-> gmay[c], asis |-> o.res,
-                tags |-> {t \in o.tags : t[1] \in w}, ndb |-> pc[c].ndb + o.dbr])
+(* the streaming read of a cached TooLarge entry (not the Spilled one)      *)
+Streaming(c) ==
+    /\ ~pc[c].spilled
+    /\ (IF pc[c].ent = 1 THEN entry[pc[c].k].st ELSE pc[c].est) = "large"
+
+FinishGet(c, o, pre) ==
+    LET w == WrongOf(c, o.res)
+        v == IF w = {} THEN 0 ELSE IF \A e \in w : \E t \in o.tags : t[1] = e THEN 1 ELSE 2
+        res == [a |-> "res", c |-> c, k |-> pc[c].k, must |-> gmust[c], may |-> gmay[c], asis |-> o.res,
+                tags |-> {t \in o.tags : t[1] \in w}, ndb |-> pc[c].ndb + o.dbr] IN
+    /\ viol' = IF v > viol THEN v ELSE viol
+    /\ IF v > 0 /\ PrintCex
+       THEN PrintT(ToJson([map |-> "set", clients |-> Cardinality(Clients), cex |-> "ReadYourWrites",
+                           steps |-> (hist \o pre) \o <<res>>]))
+       ELSE TRUE
+    /\ hist' = IF Gen THEN (hist \o pre) \o <<res>> ELSE hist
     /\ pc' = [pc EXCEPT ![c] = Idle]
     /\ gmust' = [gmust EXCEPT ![c] = {}]
     /\ gmay' = [gmay EXCEPT ![c] = {}]
     /\ UNCHANGED <<log, lpres, dirty, lver, entry, db, batch, flight, must, may, nops>>
+
+ReadDone(c) ==
+    /\ pc[c].st = "read"
+    /\ ~(LateSnapshot /\ Streaming(c))
+    /\ \E o \in ReadOutcomes(c) : FinishGet(c, o, <<>>)
+
+(* (mutant LateSnapshot) the store scan of the streaming read is opened ... *)
+StreamScan(c) ==
+    /\ LateSnapshot /\ pc[c].st = "read" /\ Streaming(c)
+    /\ pc' = [pc EXCEPT ![c].st = "sread", ![c].scan = db[pc[c].k], ![c].ndb = IF Gen THEN @ + 1 ELSE @]
+    /\ Log([a |-> "await_park", c |-> c])
+    /\ UNCHANGED <<log, lpres, dirty, lver, entry, db, batch, flight, must, may, gmust, gmay, nops, viol>>
+
+(* ... and only then the staging snapshot is taken and merged with it      *)
+StreamDone(c) ==
+    /\ pc[c].st = "sread"
+    /\ LET k == pc[c].k
+           late == Snap(IF lpres[k] THEN log[k] ELSE <<>>) IN
+       FinishGet(c, [res |-> (pc[c].scan \ late[2]) \cup late[1], tags |-> {}, dbr |-> 0],
+                 <<[a |-> "release", c |-> c, park |-> TRUE]>>)
 
 (* --------------------------------------------------- model-checking Next *)
 
@@ -521,6 +566,7 @@ ClientNext(c) ==
        \/ /\ nops[c] < MaxOps
           /\ \E k \in Keys : GetSnap(c, k)
        \/ Snapshot(c) \/ Probe(c) \/ Flight(c) \/ Scan(c) \/ Install(c) \/ ReadDone(c)
+       \/ StreamScan(c) \/ StreamDone(c)
 
 EnvNext ==
     \/ /\ EnvMayStep
